@@ -154,7 +154,15 @@ func createMethodMatcher(methods []string) (methodMatcher, error) {
 	methods = slicex.Subtract(methods, tbr)
 	tbr = slicex.Map[string, string](tbr, func(s string) string { return strings.TrimPrefix(s, "!") })
 
-	return slicex.Subtract(methods, tbr), nil
+	methods = slicex.Subtract(methods, tbr)
+	if len(methods) == 0 {
+		// an empty matcher accepts every method
+		return nil, errorchain.NewWithMessage(heimdall.ErrConfiguration,
+			"methods list does not allow any method. "+
+				"have you forgotten to use ALL together with the excluded methods?")
+	}
+
+	return methods, nil
 }
 
 func createHostMatcher(hosts []config.HostMatcher) (RouteMatcher, error) {
